@@ -108,7 +108,9 @@ func noEffectBeforeError(p *load.Program, r *kit.Report, rule string, f *ssa.Fun
 
 func checkC08(p *load.Program, r *kit.Report) {
 	importRules(p, r, "C03", "the `wrong chain` verdict is given for every listed split: a split that does not match leads to the next one", 2,
-		func(o *kit.Obligation) bool { return strings.HasPrefix(o.Construct, "ProcessHeader/foreign-split-loop") }, "GUARD-DOM")
+		func(o *kit.Obligation) bool {
+			return strings.HasPrefix(o.Construct, "ProcessHeader/foreign-split-loop")
+		}, "GUARD-DOM")
 	importRules(p, r, "C17", "`marked invalid` is answered for every hash still on the list: unmarking one hash must leave the others listed", 1, nil, "REMOVE-ONE")
 	importRules(p, r, "C02", "the `bad work or bits` verdict: the required bits are computed on the branch the header extends (its parent's branch), at the height of the header", 1,
 		func(o *kit.Obligation) bool { return strings.Contains(o.Construct, "bits-provenance") }, "GUARD-DOM")
